@@ -1,11 +1,14 @@
 #!/usr/bin/env python3
-"""Copies verified property-breaking changes from /tmp/mut-<id>/m<k> into /verif/seeded/<ID>-m<k>/ ."""
+"""Copies verified property-breaking changes from /tmp/mut-<id>/m<k> (round 1) and /tmp/mut2-<id>/m<k> (round 2)
+into /verif/seeded/<ID>-m<k>/ resp. /verif/seeded/<ID>-r2-m<k>/ ."""
 import json, os, shutil, sys, glob
 DET = json.load(open('/verif/tools/seeded_detection.json'))
-for d in sorted(glob.glob('/tmp/mut-c*/m*')):
-    pid = os.path.basename(os.path.dirname(d)).replace('mut-','').upper()
+for d in sorted(glob.glob('/tmp/mut-c*/m*') + glob.glob('/tmp/mut2-c*/m*')):
+    base = os.path.basename(os.path.dirname(d))
+    r2 = base.startswith('mut2-')
+    pid = base.replace('mut2-','').replace('mut-','').upper()
     k = os.path.basename(d)
-    key = f'{pid}-{k}'
+    key = f'{pid}-r2-{k}' if r2 else f'{pid}-{k}'
     vf = os.path.join(d,'verified.json')
     if not os.path.exists(vf): continue
     v = json.load(open(vf))
